@@ -429,8 +429,57 @@ def _copy_module(ctx):
         _auto.copy_vars(src, t2)
         if dict(t2.vars) != dict(src.vars):
             ctx.violation('copy_vars did not reproduce names and levels', dict(tags=dict(call='copy_vars')))
+        # a memo SHARED by the user across several `copy_bdd` calls, with collections and new
+        # nodes in the target in between (the memo must keep what it maps to alive)
+        cache = dict()
+        t3 = _auto.BDD()
+        t3.declare(*to)
+        order_k = list(range(len(fs)))
+        rng.shuffle(order_k)
+        for k2 in order_k[:12]:
+            g3 = _copy.copy_bdd(fs[k2], t3, cache)
+            ctx.evaluations += 1
+            if TT(t3._bdd, ABC).of(g3.node) != tts[k2]:
+                ctx.violation('dd._copy.copy_bdd with a shared memo denotes another function', dict(
+                    tt=tts[k2], source_order=so, target_order=to, tags=dict(call='_copy-shared-memo')))
+                break
+            del g3
+            t3.collect_garbage()
+            # new nodes in the target: freed numbers are handed out again
+            junk = [t3.add_expr(rng.choice([r'a /\ ~ b', r'b \/ c', r'~ a /\ c', r'a # b # c', r'(a => b) /\ c']))
+                    for _ in range(rng.randint(0, 3))]
+            if rng.random() < 0.5:
+                del junk
+                t3.collect_garbage()
+        bad = check_invariants(t3._bdd, None, probe=True) + canon_problems(t3._bdd, ABC)
+        if bad:
+            ctx.violation('target not canonical after copies with a shared memo', dict(
+                problems=bad[:3], tags=dict(call='_copy-shared-memo')))
+        # `copy_bdds_from` into a target in which dynamic reordering is enabled and due
+        t4 = _auto.BDD()
+        t4.declare(*to)
+        t4.configure(reordering=True)
+        t4._bdd._last_len = 1
+        try:
+            out4 = _copy.copy_bdds_from(fs[:10], t4)
+            tt4 = TT(t4._bdd, ABC)
+            for t, g4 in zip(tts, out4):
+                ctx.evaluations += 1
+                if tt4.of(g4.node) != t:
+                    ctx.violation('copy_bdds_from into a reordering-enabled target denotes another '
+                                  'function', dict(tt=t, source_order=so, target_order=to,
+                                                   tags=dict(call='_copy-dyn')))
+                    break
+        except Exception as e:  # noqa: BLE001
+            ctx.violation('copy_bdds_from into a reordering-enabled target raised', dict(
+                error=repr(e), source_order=so, target_order=to, tags=dict(call='_copy-dyn')))
+            out4 = None
         ctx.case(('copy-module', tuple(so), tuple(to)))
-        del fs, out, single, meth, fn, vs, f, c, g
+        del fs, out, single, meth, fn, vs, f, c, g, cache, out4
+        try:
+            del junk
+        except NameError:
+            pass
 
 
 # ---------------------------------------------------------------------------
